@@ -18,7 +18,7 @@ func genC13(tier string, seed int64) (*Family, error) {
 	fam := &Family{
 		Prop: "C13", BothOrders: true, PkgPath: modPath + "/zz_verif/" + pkg, Files: map[string]string{},
 		Bounds:    map[string]interface{}{"rules": 4, "layers": "<= 3 (thorough 4)", "layer_width": "<= 3", "shapes": "empty layers, unknown names, names repeated inside a layer"},
-		Cfg:       interp.Config{MaxSteps: 3_000_000, TrackAllocs: []string{"eMsg"}, TrackFields: []string{"engine.Gengine.returnResult"}},
+		Cfg:       interp.Config{MaxSteps: 3_000_000, TrackAllocs: []string{"*"}, TrackFields: []string{"engine.Gengine.returnResult"}},
 		Functions: []string{"engine.Gengine).ExecuteDAGModel"},
 	}
 	fam.Assumptions = []string{"each rule appears in at most one layer (repeats only inside a layer)", "saliences concrete (the DAG model ignores them)", "schedule handling as in C05"}
